@@ -1,7 +1,7 @@
-SPECIFICATION Spec
+SPECIFICATION MCSpec
 CONSTANTS
   CopyPolicy = "reuseWhenPossible"
-  CfgSpace <- MCCfg
+  CfgSpace = {}
 INVARIANT Encoding
 INVARIANT Nearest
 INVARIANT TiesToEven
